@@ -671,17 +671,99 @@ Proof.
       unfold code, chr in *. rewrite <- Hc. rewrite ascii_N_embedding. reflexivity.
 Qed.
 
+Lemma wire_ok_b_sound pp wire rq : wire_ok_b pp wire rq = true -> wire_ok pp wire rq.
+Proof.
+  unfold wire_ok_b, wire_ok. destruct (cut c_qm wire) as [[wp wq] f].
+  intros H. apply andb_true_iff in H. destruct H as [H1 H2].
+  split; [apply str_eqb_eq; exact H1|].
+  destruct (valid_encoded MPath pp); [apply str_eqb_eq; exact H2|].
+  destruct (path_unescape wp) as [a|]; [|discriminate].
+  destruct (path_unescape pp) as [b|]; [|discriminate].
+  apply str_eqb_eq in H2. subst b. exists a. auto.
+Qed.
+
 Lemma url_ok_b_sound hosts path q o : url_ok_b hosts path q o = true -> url_ok hosts path q o.
 Proof.
   unfold url_ok_b, url_ok. destruct (cut c_qm path) as [[pp static] f].
-  intros H. apply andb_true_iff in H. destruct H as [H H4].
+  intros H. apply andb_true_iff in H. destruct H as [H H5].
+  apply andb_true_iff in H. destruct H as [H H4].
   apply andb_true_iff in H. destruct H as [H H3].
   apply andb_true_iff in H. destruct H as [H1 H2].
   split; [apply str_mem_In; exact H1|].
   split.
   - unfold opt_str_eqb in H2. destruct (path_unescape pp); [|discriminate].
     apply str_eqb_eq in H2. subst. reflexivity.
-  - split; [apply str_eqb_eq; exact H3|apply query_ok_b_sound; exact H4].
+  - split; [apply str_eqb_eq; exact H3|].
+    split; [apply query_ok_b_sound; exact H4|apply wire_ok_b_sound; exact H5].
+Qed.
+
+(* ---- the request target of the model ---- *)
+Lemma esc_byte_path_no_qm a : has_byte c_qm (esc_byte MPath a) = false.
+Proof. destruct a as [[] [] [] [] [] [] [] []]; reflexivity. Qed.
+
+Lemma escape_path_no_qm s : has_byte c_qm (escape MPath s) = false.
+Proof.
+  induction s as [|c r IH]; simpl; [reflexivity|].
+  rewrite has_byte_app, esc_byte_path_no_qm, IH. reflexivity.
+Qed.
+
+Lemma unescape_slash m p dp :
+  starts_with_slash p = true -> unescape m p = Some dp -> starts_with_slash dp = true.
+Proof.
+  destruct p as [|c r]; [discriminate|]. simpl. intros H U.
+  apply N.eqb_eq in H. rewrite H in U. simpl in U.
+  destruct (unescape m r); [|discriminate].
+  assert (E : (c_slash =? c_plus) = false) by reflexivity. rewrite E in U. simpl in U.
+  inversion U; subst. simpl. rewrite H. reflexivity.
+Qed.
+
+Lemma slash_not_star dp : starts_with_slash dp = true -> str_eqb dp "*" = false.
+Proof.
+  destruct dp as [|c r]; [discriminate|]. simpl. intros H. apply N.eqb_eq in H.
+  apply str_eqb_neq. intros E. inversion E; subst. discriminate.
+Qed.
+
+Lemma slash_not_empty p : starts_with_slash p = true -> str_eqb p "" = false.
+Proof. destruct p; [discriminate|reflexivity]. Qed.
+
+(* EscapedPath: the path text as written when it is a valid escaped path, else the default
+   escaping of the decoded path *)
+Lemma escaped_path_cases u p :
+  u_rawp u = p -> unescape MPath p = Some (u_path u) -> starts_with_slash p = true ->
+  escaped_path u = if valid_encoded MPath p then p else escape MPath (u_path u).
+Proof.
+  intros Hr U Hs. unfold escaped_path. rewrite Hr.
+  pose proof (unescape_slash _ _ _ Hs U) as Hd. rewrite (slash_not_star _ Hd).
+  destruct (str_eqb p (escape MPath (u_path u))) eqn:E.
+  - simpl. apply str_eqb_eq in E. destruct (valid_encoded MPath p); [symmetry; exact E|reflexivity].
+  - rewrite (slash_not_empty _ Hs). simpl. rewrite U. simpl. rewrite str_eqb_refl.
+    destruct (valid_encoded MPath p); reflexivity.
+Qed.
+
+Lemma wire_ok_model u p :
+  u_rawp u = p -> unescape MPath p = Some (u_path u) -> starts_with_slash p = true ->
+  has_byte c_qm p = false ->
+  wire_ok_b p (escaped_path u ++ query_suffix u) (u_rawquery u) = true.
+Proof.
+  intros Hr U Hs Hq. unfold wire_ok_b.
+  rewrite (escaped_path_cases u p Hr U Hs).
+  set (ep := if valid_encoded MPath p then p else escape MPath (u_path u)).
+  assert (Hep : has_byte c_qm ep = false).
+  { unfold ep. destruct (valid_encoded MPath p); [exact Hq|apply escape_path_no_qm]. }
+  assert (C : cut c_qm (ep ++ query_suffix u) = (ep, u_rawquery u, negb (str_eqb (query_suffix u) ""))
+              \/ (cut c_qm (ep ++ query_suffix u) = (ep, EmptyString, false) /\ u_rawquery u = EmptyString)).
+  { unfold query_suffix. destruct (u_force u || negb (str_eqb (u_rawquery u) "")) eqn:F.
+    - left. simpl. apply cut_found; [reflexivity|exact Hep].
+    - right. apply orb_false_iff in F. destruct F as [_ F]. apply negb_false_iff in F.
+      apply str_eqb_eq in F. rewrite sapp_nil_r. split; [apply cut_absent; exact Hep|exact F]. }
+  assert (V : (if valid_encoded MPath p then str_eqb ep p
+               else match path_unescape ep, path_unescape p with
+                    | Some a, Some b => str_eqb a b | _, _ => false end) = true).
+  { unfold ep. destruct (valid_encoded MPath p); [apply str_eqb_refl|].
+    unfold path_unescape. rewrite escape_roundtrip, U. apply str_eqb_refl. }
+  destruct C as [C|[C E]]; rewrite C.
+  - rewrite str_eqb_refl. exact V.
+  - rewrite E. simpl. exact V.
 Qed.
 
 (* the '?' split of url.parse agrees with a plain cut at the first '?' *)
@@ -754,7 +836,8 @@ Lemma assemble_meets_oracle hosts h path q :
 Proof.
   intros Hh Hn. unfold asm_spec_b. destruct (has_byte c_hash path) eqn:Hf; [reflexivity|].
   unfold assemble, url_parse.
-  destruct (negb (wf_host h) || negb (starts_with_slash path)); [reflexivity|].
+  destruct (starts_with_slash path) eqn:Hsl; [|rewrite orb_true_r; reflexivity].
+  destruct (negb (wf_host h) || negb true); [reflexivity|].
   rewrite (cut_absent _ _ Hf).
   destruct (has_ctl path); [reflexivity|].
   change (if match last_byte path with Some n => n =? c_qm | None => false end
@@ -774,7 +857,22 @@ Proof.
   destruct (A q) as [A1 [A2 A3]]. simpl o_host. simpl o_path. simpl o_frag. simpl o_rawquery.
   rewrite A1, A2, A3. rewrite (In_str_mem _ _ Hh).
   unfold path_unescape. rewrite U. simpl opt_str_eqb. rewrite !str_eqb_refl. simpl.
-  apply query_ok_b_append; [exact Hn|reflexivity].
+  rewrite query_ok_b_append by (exact Hn || reflexivity). simpl.
+  simpl o_wire.
+  assert (Hs : starts_with_slash p = true).
+  { destruct path as [|x r]; [discriminate Hsl|]. simpl in Hsl.
+    simpl in C. destruct (code x =? c_qm) eqn:E.
+    - apply N.eqb_eq in Hsl. rewrite Hsl in E. discriminate.
+    - destruct (cut c_qm r) as [[a b] f0]. inversion C; subst. exact Hsl. }
+  assert (Hq : has_byte c_qm p = false).
+  { destruct f'.
+    - destruct (cut_rebuild _ _ _ _ C) as [c0 [_ [_ Ha]]]. exact Ha.
+    - destruct (cut_false _ _ _ _ C) as [E1 [_ E3]]. rewrite <- E1. exact E3. }
+  apply (wire_ok_model (append_query u0 q) p).
+  - destruct q; reflexivity.
+  - rewrite A2. exact U.
+  - exact Hs.
+  - exact Hq.
 Qed.
 
 (* the explicit shape of the assembled URL for a generated path whose part before the first
